@@ -400,6 +400,21 @@ func (s *Server) RunHookProg(prog Obj, req Obj) HookReply {
 			}
 			kids = append(kids, s.childFromSpec(c))
 		}
+		// also: the same names once more as children of further resources (content under `data`), after the first kind
+		for _, a := range AsList(prog["also"]) {
+			am := AsMap(a)
+			for _, n := range AsList(ps["names"]) {
+				if hidden[AsStr(n)] {
+					continue
+				}
+				c := Obj{"res": AsStr(am["res"]), "name": AsStr(n), "labels": AsMap(AsMap(AsMap(ps["template"])["metadata"])["labels"]),
+					"top": Obj{"data": Obj{"rev": ps["rev"], "nonrev": ps["nonrev"]}}}
+				if len(AsMap(c["labels"])) == 0 {
+					c["labels"] = prog["labels"]
+				}
+				kids = append(kids, s.childFromSpec(c))
+			}
+		}
 	case "ordinal":
 		// StatefulSet-like: child i is desired only once child i-1 has been observed
 		obs := observedNames(req, childField)
